@@ -144,6 +144,42 @@ def fan(k):
     return np.array(v, float), np.array(t, dtype=np.int64)
 
 
+def glued_tetras():
+    """two tetrahedron surfaces sharing one edge: no boundary edge, the common edge lies in four triangles (closed, non-manifold)"""
+    v = np.array([[0, 0, 0], [0, 0, 1], [1, 0, 0.5], [0.3, 1, 0.5], [-1, 0.2, 0.5], [-0.4, -1, 0.5]], float)
+    t = np.array([[0, 1, 2], [1, 0, 3], [0, 2, 3], [2, 1, 3], [1, 0, 4], [0, 1, 5], [0, 4, 5], [4, 1, 5]], dtype=np.int64)
+    return v, t
+
+
+def theta(k=5):
+    """three discs (cones over the same k-gon from three apexes): every rim edge lies in three triangles, no boundary edge"""
+    v = [[np.cos(2 * np.pi * i / k), np.sin(2 * np.pi * i / k), 0.0] for i in range(k)] + [[0, 0, 1.0], [0, 0, -1.0], [0.1, 0.05, 0.0]]
+    t = []
+    for apex, flip in ((k, False), (k + 1, True), (k + 2, False)):
+        for i in range(k):
+            a, b = i, (i + 1) % k
+            t.append([b, a, apex] if flip else [a, b, apex])
+    return np.array(v, float), np.array(t, dtype=np.int64)
+
+
+def lens(n=12, h=0.08, ring=0.8, dz=0.048, twist=0.0):
+    """thin closed lens with a sharp rim: two large triangles per rim vertex on the upper cap, three small ones on the lower cap
+    (area-weighted and equally weighted averages of the incident triangle normals point to opposite sides at the rim)"""
+    ang = 2 * np.pi * np.arange(n) / n
+    rim = np.column_stack([np.cos(ang), np.sin(ang), np.zeros(n)])
+    inner = np.column_stack([ring * np.cos(ang + twist * np.pi / n), ring * np.sin(ang + twist * np.pi / n), -dz * np.ones(n)])
+    v = np.vstack([rim, inner, [[0, 0, h]], [[0, 0, -h]]])
+    top, bot = 2 * n, 2 * n + 1
+    t = []
+    for i in range(n):
+        j = (i + 1) % n
+        t.append([top, i, j])                     # upper cap (outward = +z)
+        t.append([i, n + i, j])                   # lower strip (outward = -z)
+        t.append([j, n + i, n + j])
+        t.append([n + i, bot, n + j])             # lower cone
+    return v, np.array(t, dtype=np.int64)
+
+
 def delaunay_patch(rng, n):
     from scipy.spatial import Delaunay
     while True:
@@ -264,6 +300,40 @@ def add_free(rng, v, t, k=2):
     return v, t
 
 
+PRES = ["plain", "t-fortran", "vt-fortran", "t-int32", "transposed", "strided"]
+
+
+def arrays(case, keep_int=True):
+    """the arrays handed to the implementation for a generated case: same values as case['v'], case['t'], presented as the case says
+    (Fortran order, int32 indices, 3 x n transposed input, strided views, integer vertex dtype)"""
+    return present(case["v"], case["t"], case.get("pres") or "plain", keep_int and case.get("vdtype") == "int64")
+
+
+def present(v, t, pres="plain", vint=False):
+    v = np.asarray(v, dtype=np.float64); t = np.asarray(t, dtype=np.int64)
+    if vint:
+        v = v.astype(np.int64)
+    if pres == "transposed" and (t.shape[1] != 3 or len(v) < 4 or len(t) < 4):
+        pres = "t-fortran"
+    if pres == "t-fortran":
+        t = np.asfortranarray(t)
+    elif pres == "vt-fortran":
+        t = np.asfortranarray(t); v = np.asfortranarray(v)
+    elif pres == "t-int32":
+        t = t.astype(np.int32)
+    elif pres == "transposed":
+        t = np.ascontiguousarray(t.T); v = np.ascontiguousarray(v.T)
+    elif pres == "strided":
+        tt = np.zeros((len(t), 2 * t.shape[1]), dtype=np.int64); tt[:, ::2] = t; t = tt[:, ::2]
+        vv = np.zeros((2 * len(v), 3), dtype=v.dtype); vv[::2] = v; v = vv[::2]
+    return v, t
+
+
+def add_trailing_free(rng, v, t, k=2):
+    """append k unused vertices at the END of the vertex array"""
+    return np.vstack([v, rng.uniform(-1, 1, (k, 3))]), t.copy()
+
+
 # ------------------------------------------------------------------ streams of triangle meshes
 
 def tria_bases(rng, size="small"):
@@ -289,6 +359,8 @@ def tria_bases(rng, size="small"):
     out.append(("two-components", union(icosphere(0), grid(2, 2))))
     out.append(("two-spheres", union(icosphere(0), octahedron())))
     out.append(("graded", graded_disc(int(rng.integers(9, 14)), int(rng.integers(6, 10)))))
+    out.append(("glued-tetras", glued_tetras()))
+    out.append(("theta", theta(int(rng.integers(3, 7)))))
     return out
 
 
@@ -317,7 +389,17 @@ def tria_stream(seed, n, size="small", classes=None, modifiers=True):
                     v, t, _ = relabel(rng, v, t); tags.add("relabelled")
                 if rng.random() < 0.3:
                     t = permute_elems(rng, t); tags.add("permuted")
-            yield dict(v=v, t=t, tags=tags, name=name)
+            case = dict(v=v, t=t, tags=tags, name=name)
+            if modifiers:
+                # how the same mesh is handed to the implementation (values unchanged): memory layout, index dtype, integer coordinates
+                pres = ["plain", "plain", "plain", "t-fortran", "vt-fortran", "t-int32", "transposed", "strided"][int(rng.integers(0, 8))]
+                if pres == "transposed" and (len(v) < 4 or len(t) < 4 or len(v) == 3 or len(t) == 3):
+                    pres = "t-fortran"
+                if pres != "plain":
+                    case["pres"] = pres; tags.add("pres:" + pres)
+                if "rigid" not in tags and np.all(v == np.round(v)) and rng.random() < 0.6:
+                    case["vdtype"] = "int64"; tags.add("int-coords")
+            yield case
             k += 1
             if k >= n:
                 return
@@ -401,7 +483,17 @@ def tet_stream(seed, n, size="small", modifiers=True):
                     v, t, _ = relabel(rng, v, t); tags.add("relabelled")
                 if rng.random() < 0.3:
                     t = permute_elems(rng, t); tags.add("permuted")
-            yield dict(v=v, t=t, tags=tags, name=name)
+            case = dict(v=v, t=t, tags=tags, name=name)
+            if modifiers:
+                # how the same mesh is handed to the implementation (values unchanged): memory layout, index dtype, integer coordinates
+                pres = ["plain", "plain", "plain", "t-fortran", "vt-fortran", "t-int32", "transposed", "strided"][int(rng.integers(0, 8))]
+                if pres == "transposed" and (len(v) < 4 or len(t) < 4 or len(v) == 3 or len(t) == 3):
+                    pres = "t-fortran"
+                if pres != "plain":
+                    case["pres"] = pres; tags.add("pres:" + pres)
+                if "rigid" not in tags and np.all(v == np.round(v)) and rng.random() < 0.6:
+                    case["vdtype"] = "int64"; tags.add("int-coords")
+            yield case
             k += 1
             if k >= n:
                 return
